@@ -4,7 +4,7 @@
 # seeded defects can be tried WITHOUT touching /repo while long runs (sweeps, thorough tiers) use /repo itself.
 # Final claims are always re-established on /repo itself with tools/run_seeded.sh.
 set -u
-LAB=/tmp/lab
+LAB="${LAB:-/tmp/lab}"
 case "${1:-}" in
   init|sync)
     if [ "$1" = init ]; then
